@@ -177,6 +177,19 @@ T.update({
  'C17_h': dict(change='SignZa hashes append(za, msg...)', needs='za with spare capacity shared by goroutines: msg bytes are written behind za in the caller buffer', strengthened='YES: audited inputs had cap == len so an append reallocated; inputs of the message-level audit now sit in buffers with spare capacity (and za is listed as an input), the race replay shares a za record between workers'),
 })
 
+T.update({
+ 'C01_h': dict(change='VerifyHashed range check compares r, s with n-1 instead of n', needs='signature with r = n-1 or s = n-1 (legitimately produced) is rejected', strengthened='no'),
+ 'C02_h': dict(change='SignHashed reduces r+k mod n before the r+k = n test', needs='first candidate with r + k = n: the rule is dead, s = k is emitted', strengthened='no'),
+ 'C03_h': dict(change='ScalarMixedMult_Unsafe: skip flag not cleared in the base-table branch', needs='t = r+s below about 2^14: R wrong, valid signature rejected', strengthened='YES: the double multiplication is a contract in C03 (C14 owns it) and the solved families used random t; families with tiny, sparse and near-n values of t and s added'),
+ 'C04_h': dict(change='sm3 checkSum writes the bit length as two 32-bit words, high word shifted by 32 instead of 29', needs='2^29 bytes or more hashed', strengthened='no'),
+ 'C08_h': dict(change='multiSelectConditioned scans only the first bits entries of the table', needs='scan length = secret window value', strengthened='no'),
+ 'C14_h': dict(change='ScalarMult dispatches to ScalarBaseMult when P is the generator with Z = 1', needs='P == G and a scalar whose length is not 32: error instead of [k]G', strengthened='YES: the code now inspects the coordinates of the point the obligation keeps abstract and the interpreter crashed (check aborted, INCONCLUSIVE); such loads are now an Unsupported verdict for that obligation only, and the replay multiplies G (Z = 1 and Z != 1) and O by scalars of every length class'),
+ 'C16_h': dict(change='field sm2Add: final-reduction selector is the complement of the carry-out instead of the borrow of the trial subtraction', needs='canonical operands whose limb sum lies in [p, 2^256): non-canonical result, later operations wrong', strengthened='YES: integer mode did not know the exclusive or of two flag bits (check aborted), and once it did the counterexample was not reproduced because Bytes() reduces; single-bit xor added, the replay checks that raw result limbs are below the modulus'),
+ 'C18_h': dict(change='sm2Precomputed_4_2_32 sub table 2 entry 10: Y replaced by p - Y', needs='table only read by a benchmark-only multiplication', strengthened='no'),
+ 'C19_h': dict(change='Sign wraps the source in io.MultiReader(rand, crypto/rand.Reader)', needs='caller source ends: nonce topped up from the system generator, no error', strengthened='YES: io.MultiReader is outside the dumped code and the whole check aborted; a symbolic abort is now per entry point, and the concrete end-of-source schedules cover Sign and SignZa as well as GenerateKey and SignHashed'),
+ 'C20_h': dict(change='DecomposeNAF fold threshold from a table whose w = 6 entry is 46 instead of 64', needs='window width 6 (unused by the library), odd window value 47..63', strengthened='no'),
+})
+
 for name, t in sorted(T.items()):
     d = os.path.join(S, name)
     if not os.path.isdir(d):
